@@ -1411,7 +1411,44 @@ def build(ctx):
     ctx.note("shared make failed outside C16 (%s); C16's closure was compiled directly with coqc" % mine[0][:200])
 
 
+# what coq/Model/C16_signed.v mirrors by hand (each Gallina definition's comment names its Python counterpart)
+MODELLED = [
+    "webob.cookies:SignedSerializer.__init__",      # salted_secret, latin1 / utf8 fallback, digest_size
+    "webob.cookies:SignedSerializer.dumps",         # signed_dumps
+    "webob.cookies:SignedSerializer.loads",         # b64padding, decoded, signed_loads_b, signed_loads
+    "webob.cookies:Base64Serializer.dumps",         # b64ser_dumps
+    "webob.cookies:Base64Serializer.loads",         # b64ser_loads
+    "webob.cookies:CookieProfile.get_value",        # get_value_bound, get_value (repaired code)
+    "webob.cookies:CookieProfile.get_headers",      # get_headers (value is not None)
+    "webob.cookies:CookieProfile._get_cookies",     # get_headers: 4093 limit, one Set-Cookie per domain
+    "webob.cookies:SignedCookieProfile.__init__",   # sprofile, sp_get_value / sp_get_headers wiring
+    "webob.cookies:SignedCookieProfile.bind",       # sp_bind
+    "webob.cookies:make_cookie",                    # mk_cookie_plain: name=value[; Domain=d]; Path=/ for values needing no quoting
+    "webob.util:bytes_",                            # latin1 / utf8
+    "base64:urlsafe_b64encode",                     # b64enc, b2a
+    "base64:urlsafe_b64decode",                     # b64dec, a2b (urlsafe translation)
+    "base64:b64decode",                             # validate=False -> binascii.a2b_base64 non-strict
+    "binascii:a2b_base64",                          # a2b_loop (quad_pos / leftchar / pads state machine)
+    "binascii:b2a_base64",                          # b64enc
+]
+REGENERATED = []                                    # nothing is translated from source: no gen()
+# exercised by the oracle (and as recorded external answers / transport in the correspondence), no Gallina counterpart
+ORACLE_ONLY = [
+    "webob.cookies:JSONSerializer.dumps", "webob.cookies:JSONSerializer.loads",      # ser / deser parameters of the model
+    "webob.cookies:CookieProfile.__init__", "webob.cookies:CookieProfile.bind", "webob.cookies:CookieProfile.__call__",
+    "webob.cookies:CookieProfile.set_cookies",
+    "webob.cookies:Morsel.serialize", "webob.cookies:_value_quote", "webob.cookies:_path_quote",
+    "webob.cookies:RequestCookies._cache", "webob.cookies:RequestCookies.get", "webob.cookies:parse_cookie",
+    "webob.cookies:_parse_cookie", "webob.cookies:_unquote", "webob.cookies:_rx_cookie", "webob.cookies:_valid_cookie_name",
+    "webob.request:BaseRequest.cookies", "webob.util:text_",
+    "hmac:new", "hmac:compare_digest", "hashlib:new",                               # mac / dsize parameters of the model
+]
+
+
 def run(ctx):
+    ctx.modelled(MODELLED)
+    ctx.extra["regenerated_from_source"] = REGENERATED
+    ctx.extra["oracle_only"] = ORACLE_ONLY
     build(ctx)
     correspondence(ctx)
     oracle(ctx)
